@@ -6,11 +6,12 @@
 use vstd::prelude::*;
 use std::cmp;
 use vstd::std_specs::cmp::*;
+use vstd::std_specs::iter::IteratorSpec;
 verus! {
 global size_of usize == 8;
 //@ include prelude/numeric_id.vs
 //@ include prelude/std_extra.vs
-broadcast use {nid::ax_id_eq, nid::ax_id_cmp, nid::ax_id_obeys_eq, nid::ax_id_obeys_cmp, nid::ax_id_obeys_partial_cmp, nid::ax_id_partial_cmp};
+broadcast use {nid::ax_id_eq, nid::ax_id_cmp, nid::ax_id_obeys_eq, nid::ax_id_obeys_cmp, nid::ax_id_obeys_partial_cmp, nid::ax_id_partial_cmp, stdx::ax_iter_seq_vec};
 //@ idtype Value RowId ColumnId
 
 // ---- trusted environment ---------------------------------------------------------------------------------------
@@ -185,6 +186,51 @@ pub open spec fn expected(t: SortedWritesTable, out: Seq<(RowId, Seq<Value>)>, t
                 proof { ax_rb_empty(rebuilder, self.data@, 0); }
 //@ at after-loop 0
                 proof { assert(mutation_buf.log() == expected(*self, out0, next_ts, out0.len())); }
+//@ end-fn
+//@ end-impl
+
+// ---------------- refresh_rows_for_values: the staging half (C14 / C03) ------------------------------------------
+/// what the refresh must stage for the candidates ids[0..j): every live candidate row is removed and re-inserted
+/// unchanged except for its sort column, which becomes next_ts (so seminaive treats it as a fresh parent-row delta)
+pub open spec fn expected_refresh(t: SortedWritesTable, ids: Seq<RowId>, ts: Value, j: nat) -> Seq<Staged>
+    decreases j
+{
+    if j == 0 { Seq::empty() } else {
+        let before = expected_refresh(t, ids, ts, (j - 1) as nat);
+        let cur = t.data@[ids[j - 1].ix() as int];
+        if stale(cur) { before } else {
+            before.push(Staged::Remove(cur.subrange(0, t.n_keys as int))).push(Staged::Insert(restamp(cur, t.sort_by, ts)))
+        }
+    }
+}
+pub open spec fn any_live(t: SortedWritesTable, ids: Seq<RowId>, j: nat) -> bool
+    decreases j
+{
+    if j == 0 { false } else { any_live(t, ids, (j - 1) as nat) || !stale(t.data@[ids[j - 1].ix() as int]) }
+}
+
+//@ impl core-relations/src/table/rebuild.rs impl SortedWritesTable
+// candidate_rows is a HashSet<RowId> in the real function: the header passes its elements in iteration order
+//@ lift core-relations/src/table/rebuild.rs refresh_rows_for_values tail 2 as refresh_stage_candidates
+//@ header pub fn refresh_stage_candidates(&self, candidate_rows: Vec<RowId>, next_ts: Value) -> (r: bool)
+//@ rewrite R-FORVEC 0
+//@ at sig
+        requires self.shape_ok(), forall|i: int| 0 <= i < candidate_rows@.len() ==> (#[trigger] candidate_rows@[i]).ix() < self.data@.len(),
+        ensures r == any_live(*self, candidate_rows@, candidate_rows@.len()),
+//@ at loop 0 spec
+            invariant
+                self.shape_ok(), __v0@ == ids, __j0 <= ids.len(),
+                forall|i: int| 0 <= i < ids.len() ==> (#[trigger] ids[i]).ix() < self.data@.len(),
+                // C14/C03: exactly the live candidate rows are removed and re-inserted with the sort column set to next_ts
+                mutation_buf.log() == expected_refresh(*self, ids, next_ts, __j0 as nat),
+                changed == any_live(*self, ids, __j0 as nat),
+            decreases ids.len() - __j0
+//@ at loop 0 body-end
+            proof { assert(refreshed_row@ =~= restamp(self.data@[row_id.ix() as int], self.sort_by, next_ts)); }
+//@ at before-loop 0
+        let ghost ids = candidate_rows@;
+//@ at after-loop 0
+        proof { assert(mutation_buf.log() == expected_refresh(*self, ids, next_ts, ids.len())); }
 //@ end-fn
 //@ end-impl
 
